@@ -221,9 +221,15 @@ fn main() {
         let t = calgen::random_program(&mut rng);
         run_case(&mut run, &t, false);
     }
+    let nchain = if args.thorough() { 6000 } else { 500 };
+    let mut rng2 = Rng::new(args.seed ^ 0x19c);
+    for _ in 0..nchain {
+        let t = calgen::chain_program(&mut rng2);
+        run_case(&mut run, &t, false);
+    }
     run.finish(
-        "same generators as C17: corpus (the pinned quil-rs source-map test program::tests::expand_calibrations, calibration::tests::expand_with_detail_recursive, DECLARE in first/middle position of nested expansions); exhaustive small scope (one calibration x bodies of length 1..2 over the instruction pools, incl. DECLARE and nested calls); seeded random programs with 1..5 calibrations (nested up to depth 3, parameterised, DECLAREs) and 1..5 body instructions. Distinct by program text; non-trivial = the source map has at least one Rewritten entry.",
+        "same generators as C17: corpus (the pinned quil-rs source-map test program::tests::expand_calibrations, calibration::tests::expand_with_detail_recursive, DECLARE in first/middle position of nested expansions); exhaustive small scope (one calibration x bodies of length 1..2 over the instruction pools, incl. DECLARE and nested calls); seeded random programs with 1..5 calibrations (nested up to depth 3, parameterised, DECLAREs) and 1..5 body instructions. Chains: seeded chains of nested calibrations A -> B -> C -> MEASURE of depth 2..4 with leaf instructions around the nested calls and an optional DECLARE at a random level. Distinct by program text; non-trivial = the source map has at least one Rewritten entry.",
         true,
-        serde_json::json!({"corpus": corpus, "exhaustive_cases": exhaustive_cases, "random_cases": nrand, "mutant": mutant()}),
+        serde_json::json!({"corpus": corpus, "exhaustive_cases": exhaustive_cases, "random_cases": nrand, "chain_cases": nchain, "mutant": mutant()}),
     );
 }
